@@ -19,6 +19,7 @@ def main():
     chk.unit(FILE, 'releaseGeom', C, 'math', 'opaque')
     chk.unit(FILE, 'mjv_initGeom', {'mjv_initGeom': scene.INIT_GEOM, 'mju_n2f': C['mju_n2f'], 'f2f': {'inline': True}}, 'math', 'opaque')
     # addGeomGeoms: which model geoms enter the scene (category mask, clamped group), in index order, never beyond the capacity
+    chk.unit(FILE, 'bodycategory', {'__defs__': {}, 'bodycategory': scene.BODYCAT}, 'math', 'opaque')
     chk.unit(FILE, 'addGeomGeoms', scene.add_contracts(), 'math', 'opaque', check_arith=False)
     try:
         tu = load_tu(FILE)
